@@ -1,14 +1,14 @@
 (* C18 (a) -- constructors of unit twists and their screw accessors (3-D and planar).
    Statements are fixed; the tr_ / pc_ / bt_ definitions are regenerated from /repo on every run (Twist3.Revolute,
    Twist3.Prismatic, pitch, theta, pole, line, isprismatic, Plucker.PointDir / pp, and the Twist2 analogues run on symbols;
-   the normalisation a/|a| of base.unitvec is part of the traces, its branch |a| > 10 eps is the generated path condition). *)
+   the normalisation a/|a| of base.unitvec is part of the traces, its branch |a| >= 10 eps is the generated path condition). *)
 From Coq Require Import Reals ZArith Lra Lia Nsatz Psatz Bool.
 From SM Require Import Base.Ops Base.Lin Base.RInst Base.RLin Model.C18_Screw.
 From SMgen Require Import Traces_C18.
 Open Scope R_scope.
 
 Ltac gen_unfold := autounfold with smgen smlin in *; sm_simpl.
-Definition unit_thr : R := 5 / 2251799813685248.      (* 10 * 2^-52: unitvec's threshold since fix d900630, the same as iszerovec's (= tiny) *)
+Definition unit_thr : R := 5 / 2251799813685248.      (* 10 * 2^-52: unitvec's threshold (fixes d900630, 4dbd011: n >= 10 eps), the complement of iszerovec's n < 10 eps *)
 
 (* abstract the norm: n := sqrt(a.a) with n*n = a.a and n > 0 *)
 Ltac abstract_norm3 a0 a1 a2 Hpos :=
@@ -17,16 +17,16 @@ Ltac abstract_norm3 a0 a1 a2 Hpos :=
   revert Hpos Hn; generalize (sqrt (a0*a0 + a1*a1 + a2*a2)); intros n Hpos Hn.
 
 (* ---------------------------------------------------------------- constructors *)
-Lemma C18_pc_Revolute_iff : forall a q, pc_tr_T3_Revolute Rops a q = true <-> unit_thr < norm3 Rops a.
-Proof. intros. destruct_tuples. gen_unfold. rewrite andb_true_r, Rltb_true. unfold unit_thr. tauto. Qed.
+Lemma C18_pc_Revolute_iff : forall a q, pc_tr_T3_Revolute Rops a q = true <-> unit_thr <= norm3 Rops a.
+Proof. intros. destruct_tuples. gen_unfold. rewrite andb_true_r, Rleb_true. unfold unit_thr. tauto. Qed.
 Print Assumptions C18_pc_Revolute_iff.
-Lemma C18_pc_Prismatic_iff : forall a, pc_tr_T3_Prismatic Rops a = true <-> unit_thr < norm3 Rops a.
-Proof. intros. destruct_tuples. gen_unfold. rewrite andb_true_r, Rltb_true. unfold unit_thr. tauto. Qed.
+Lemma C18_pc_Prismatic_iff : forall a, pc_tr_T3_Prismatic Rops a = true <-> unit_thr <= norm3 Rops a.
+Proof. intros. destruct_tuples. gen_unfold. rewrite andb_true_r, Rleb_true. unfold unit_thr. tauto. Qed.
 Print Assumptions C18_pc_Prismatic_iff.
 
 Lemma unit_thr_pos : 0 < unit_thr.  Proof. unfold unit_thr. lra. Qed.
 Print Assumptions unit_thr_pos.
-(* the zero test (iszerovec) and the normalisation test (unitvec) now agree: no vector passes one and fails the other *)
+(* the zero test (iszerovec: n < tiny) and the normalisation test (unitvec: n >= unit_thr) are exact complements *)
 Lemma C18_unit_thr_is_zero_thr : unit_thr = tiny.  Proof. reflexivity. Qed.
 Print Assumptions C18_unit_thr_is_zero_thr.
 
